@@ -42,12 +42,14 @@ cd "$B/sim" || exit 2
 GRPCVER=$($GO list -m -f '{{.Version}}' google.golang.org/grpc 2>/dev/null)
 GRPCDIR=$($GO list -m -f '{{.Dir}}' google.golang.org/grpc 2>/dev/null)
 [ -f "$GRPCDIR/internal/grpcrand/grpcrand.go" ] || { echo "BUILD-ERROR: cannot locate grpc-go's grpcrand.go" >&2; exit 2; }
-DEP=/var/tmp/verif-deps/grpc@$GRPCVER
-if [ ! -f "$DEP/.patched2" ]; then
+# (the directory name carries the patch revision: builds from different
+# revisions of /verif may run at the same time)
+DEP=/var/tmp/verif-deps/grpc@$GRPCVER-p3
+if [ ! -f "$DEP/.patched3" ]; then
   rm -rf "$DEP.tmp.$$" && mkdir -p /var/tmp/verif-deps && cp -r "$GRPCDIR" "$DEP.tmp.$$" && chmod -R u+w "$DEP.tmp.$$" || exit 2
   python3 $VD/sim/rtoverlay/grpcrand.py "$GRPCDIR/internal/grpcrand/grpcrand.go" "$DEP.tmp.$$/internal/grpcrand/grpcrand.go" || { echo "BUILD-ERROR: grpcrand patch" >&2; exit 2; }
   python3 $VD/sim/rtoverlay/grpcretry.py "$DEP.tmp.$$/stream.go" || { echo "BUILD-ERROR: grpc retry patch" >&2; exit 2; }
-  touch "$DEP.tmp.$$/.patched2"
+  touch "$DEP.tmp.$$/.patched3"
   rm -rf "$DEP"; mv "$DEP.tmp.$$" "$DEP" 2>/dev/null || rm -rf "$DEP.tmp.$$"
 fi
 printf '\nreplace google.golang.org/grpc => %s\n' "$DEP" >> go.mod
